@@ -4,6 +4,7 @@ Confirms a seeded change on a scratch worktree of /repo HEAD, then runs the
 registered check against /repo with the change applied (and undoes it)."""
 import sys, os, subprocess, json, shutil, time
 ID, dest, pat, pkg = sys.argv[1:5]
+PROP = ID[:-1] if ID.endswith("b") else ID
 patch = "/tmp/mut/out/%s/patch.diff" % ID
 if "--patch" in sys.argv:
     patch = sys.argv[sys.argv.index("--patch") + 1]
@@ -17,7 +18,7 @@ shutil.rmtree(wt, ignore_errors=True)
 sh("git -C /repo worktree prune")
 rc, out = sh("git -C /repo worktree add -f --detach %s HEAD" % wt)
 assert rc == 0, out
-meta = {"property": ID, "patch": os.path.basename(patch), "base": sh("git -C /repo rev-parse --short HEAD")[1].strip(), "ran": []}
+meta = {"property": PROP, "patch": os.path.basename(patch), "base": sh("git -C /repo rev-parse --short HEAD")[1].strip(), "ran": []}
 def rec(cmd, rc, out):
     meta["ran"].append({"cmd": cmd, "rc": rc, "tail": out[-400:]})
 try:
@@ -56,9 +57,9 @@ try:
         assert rc == 0, out
         t0 = time.time()
         e2 = dict(env, VERIF_REPO=wt, VERIF_OUT_DIR="/tmp/sw/out_%s" % ID)
-        rc, out = sh("cd /verif && ./vcheck run %s --tier quick" % ID, e=e2)
+        rc, out = sh("cd /verif && ./vcheck run %s --tier quick" % PROP, e=e2)
         meta["check_quick"] = {"rc": rc, "wall_s": round(time.time() - t0), "tree": "scratch worktree of /repo HEAD + patch (VERIF_REPO)",
-                               "lines": [l for l in out.split("\n") if l.startswith(("VIOLATION", "INCONCLUSIVE", "KNOWN", ID, "  signature"))][:12]}
+                               "lines": [l for l in out.split("\n") if l.startswith(("VIOLATION", "INCONCLUSIVE", "KNOWN", PROP, "  signature"))][:12]}
         print("check rc", rc)
         for l in meta["check_quick"]["lines"][:8]: print("   ", l[:260])
     sd = "/verif/seeded/%s" % ID
